@@ -52,21 +52,26 @@ Value& HASHExpression::value(Context & ctx) const
   if (_args.size() > 1)
   {
     Value& a1 = _args[1]->value(ctx);
+    Integer n = max_size;
     switch (a1.type().major())
     {
     case Type::NO_TYPE:
       break;
     case Type::INTEGER:
       if (!a1.isNull())
-        max_size = (uint32_t)*a1.integer();
+        n = *a1.integer();
       break;
     case Type::NUMERIC:
       if (!a1.isNull())
-        max_size = (uint32_t)*a1.numeric();
+        n = Value::toInteger(*a1.numeric());
       break;
     default:
       throw RuntimeError(EXC_RT_FUNC_ARG_TYPE_S, KEYWORDS[oper]);
     }
+    /* the hash is the remainder of a division by the size */
+    if (n < 1 || n > UINT32_MAX)
+      throw RuntimeError(EXC_RT_OUT_OF_RANGE);
+    max_size = (uint32_t)n;
   }
   switch (val.type().major())
   {
